@@ -385,7 +385,66 @@ func solveObligation(sc *smtScript, ob *Obligation, opts solveOpts) {
 	default:
 		ob.Status = "failed"
 		ob.Detail = "undischarged (no solver decided): " + ob.Detail
+		// candidate inputs for a replay: a model of the path with the quantified assumptions dropped (an
+		// over-approximation; only a replay on the real code can confirm it)
+		for i, b := range best {
+			if b.status == "unknown" {
+				if m := relaxedModel(sc, ob, i, opts); m != "" {
+					ob.Model = m
+					ob.Inputs = parseGetValue(m, ob.inputTerms)
+					k2 := 0
+					for _, vc := range ob.VCs {
+						if vc.goal == "true" {
+							continue
+						}
+						if k2 == i {
+							ob.Trace = vc.trace
+						}
+						k2++
+					}
+					ob.Detail += " ; candidate inputs from the quantifier-free relaxation of path " + fmt.Sprint(i)
+				}
+				break
+			}
+		}
 	}
+}
+
+// relaxedModel drops quantified assertions from one VC and asks for values of the inputs.
+func relaxedModel(sc *smtScript, ob *Obligation, idx int, opts solveOpts) string {
+	k := 0
+	only := -1
+	for i, vc := range ob.VCs {
+		if vc.goal == "true" {
+			continue
+		}
+		if k == idx {
+			only = i
+		}
+		k++
+	}
+	if only < 0 {
+		return ""
+	}
+	vc := ob.VCs[only]
+	var pc []string
+	for _, p := range vc.pc {
+		if strings.Contains(p, "(forall ") || strings.Contains(p, "(exists ") {
+			continue
+		}
+		pc = append(pc, p)
+	}
+	goal := vc.goal
+	if strings.Contains(goal, "(forall ") || strings.Contains(goal, "(exists ") {
+		return ""
+	}
+	tmp := &Obligation{Name: ob.Name + ".relaxed", Kind: ob.Kind, VCs: []VC{{pc: pc, goal: goal}}, inputTerms: ob.inputTerms}
+	o2 := opts
+	if o2.timeoutS > 8 {
+		o2.timeoutS = 8
+	}
+	out := modelFor(sc, tmp, 0, "z3-new", o2)
+	return out
 }
 
 func modelFor(sc *smtScript, ob *Obligation, idx int, solver string, opts solveOpts) string {
